@@ -23,6 +23,8 @@ def build_tools(check, variant="rel"):
             "-Wl,-rpath," + os.path.join(bdir, "lib"), "-o", kprobe])
     if p.returncode:
         check.harness_error("kprobe compile failed: " + p.stdout[-3000:])
+    import time
+    check.t0 = time.time()
     return pfs, kprobe
 
 
